@@ -168,6 +168,8 @@ def run(repo: Repo, rep: Report) -> None:
         if qm.has(q):
             truthy.scan(repo, rep, "C16.c-unbound-by-identity", qm, qm.func(q), q, exempt=EXEMPT)
 
+    more_rules(repo, rep)
+
     # ------------------------------------------------------------------ (d)
     rep.rule("C16.d-sax-characters-get-str",
              "xml.sax XMLGenerator.characters(content) ignores falsy content: every argument passed to <writer>.characters() that may be "
@@ -213,6 +215,81 @@ def run(repo: Repo, rep: Report) -> None:
         bad = [n for n in ast.walk(mod.tree) if isinstance(n, ast.Call) and isinstance(n.func, ast.Attribute) and n.func.attr == "splitlines"]
         rep.ob("C16.f-no-splitlines-in-record-readers", mod, "<module>", "no .splitlines() in %s" % mod.rel, not bad,
                "" if not bad else "%s splits records with splitlines(): a literal containing U+2028, \\x0b, \\x0c, \\x85 ... is cut in the middle" % norm(bad[0])[:60], node=bad[0] if bad else mod.tree)
+
+
+def more_rules(repo: Repo, rep: Report) -> None:
+    js = repo.mod("rdflib.plugins.sparql.results.jsonresults")
+    xm = repo.mod("rdflib.plugins.sparql.results.xmlresults")
+    qm = repo.mod("rdflib.query")
+    # (g) no lossy memo in front of parseJsonTerm
+    rep.rule("C16.g-json-terms-parsed-individually",
+             "JSONResult._get_bindings obtains every cell from parseJsonTerm(<that cell's object>); if parsed terms are memoised, the memo key contains "
+             "all four fields parseJsonTerm reads (type, value, datatype, xml:lang)", floor=1)
+    f = js.func("JSONResult._get_bindings")
+    calls = [c for c in ast.walk(f) if isinstance(c, ast.Call) and norm(c.func) == "parseJsonTerm"]
+    if not calls:
+        raise AnalysisError("JSONResult._get_bindings no longer calls parseJsonTerm")
+    memo_writes = [n for n in ast.walk(f) if isinstance(n, ast.Assign) and any(isinstance(t, ast.Subscript) for t in n.targets)
+                   and any(isinstance(x, ast.Call) and norm(x.func) == "parseJsonTerm" for x in ast.walk(n.value))]
+    memo_writes += [n for n in ast.walk(f) if isinstance(n, ast.Call) and isinstance(n.func, ast.Attribute) and n.func.attr == "setdefault"
+                    and any(isinstance(x, ast.Call) and norm(x.func) == "parseJsonTerm" for a in n.args for x in ast.walk(a))]
+    lossy = []
+    for w in memo_writes:
+        # the container written must not be the result row itself (row[var] = parseJsonTerm(...) is the normal form)
+        tgt = ([t for t in w.targets if isinstance(t, ast.Subscript)] or [w.targets[0]])[0] if isinstance(w, ast.Assign) else w.func.value
+        cont = tgt.value if isinstance(tgt, ast.Subscript) else tgt
+        key = tgt.slice if isinstance(tgt, ast.Subscript) else (w.args[0] if isinstance(w, ast.Call) else None)
+        reads = [x for x in ast.walk(f) if (isinstance(x, ast.Subscript) and x is not tgt and norm(x.value) == norm(cont) and isinstance(x.ctx, ast.Load))
+                 or (isinstance(x, ast.Call) and isinstance(x.func, ast.Attribute) and x.func.attr == "get" and norm(x.func.value) == norm(cont))
+                 or (isinstance(x, ast.Compare) and isinstance(x.ops[0], (ast.In, ast.NotIn)) and norm(x.comparators[0]) == norm(cont))]
+        if not reads:
+            continue  # a plain result container
+        keytxt = norm(key) if key is not None else ""
+        src = keytxt
+        for n in ast.walk(f):
+            if isinstance(n, ast.Assign) and norm(n.targets[0]) == keytxt:
+                src = norm(n.value)
+        if not all(k in src for k in ("type", "value", "datatype", "xml:lang")):
+            lossy.append((w, src))
+    rep.ob("C16.g-json-terms-parsed-individually", js, "JSONResult._get_bindings", "parseJsonTerm results are not memoised under a partial key", not lossy,
+           "each cell parsed from its own JSON object" if not lossy else "parsed terms are cached under the key %s, which omits a field parseJsonTerm reads: cells differing only in that field collapse to the first one" % lossy[0][1][:80],
+           node=lossy[0][0] if lossy else f)
+
+    # (h) the literal's datatype attribute is written whenever the literal has a datatype
+    rep.rule("C16.h-xml-datatype-written-when-present",
+             "write_binding adds the datatype attribute under a test of the literal's datatype alone (`val.datatype` / `is not None`), not depending on "
+             "which datatype it is: the reader builds an untyped literal whenever the attribute is absent", floor=1)
+    wb = xm.func("SPARQLXMLWriter.write_binding")
+    nd = 0
+    for n in ast.walk(wb):
+        if isinstance(n, ast.If) and any(isinstance(a, ast.Assign) and isinstance(a.targets[0], ast.Subscript) and "datatype" in norm(a.targets[0].slice) for a in n.body):
+            nd += 1
+            t = n.test
+            simple = (isinstance(t, ast.Attribute) and t.attr == "datatype") or (
+                isinstance(t, ast.Compare) and isinstance(t.ops[0], ast.IsNot) and isinstance(t.left, ast.Attribute) and t.left.attr == "datatype")
+            rep.ob("C16.h-xml-datatype-written-when-present", xm, "SPARQLXMLWriter.write_binding", t, simple,
+                   "written for every datatype" if simple else "the datatype attribute is omitted under `%s`: a literal of that datatype is read back as a plain literal (a different term)" % norm(t)[:80], node=n)
+    if nd == 0:
+        raise AnalysisError("write_binding: datatype attribute write not found")
+
+    # (i) rows already handed out are kept
+    rep.rule("C16.i-bindings-extend-not-replace",
+             "Result.bindings, when it drains the pending generator, extends the list of rows already collected (Result.__iter__ appends the rows it "
+             "has yielded to the same list) instead of replacing it", floor=1)
+    getter = None
+    for n in ast.walk(qm.cls("Result")):
+        if isinstance(n, ast.FunctionDef) and n.name == "bindings" and any(norm(d) == "property" for d in n.decorator_list):
+            getter = n
+    if getter is None:
+        raise AnalysisError("Result.bindings getter not found")
+    drains = [n for n in ast.walk(getter) if isinstance(n, (ast.Assign, ast.AugAssign)) and "_genbindings" in norm(n.value) and "_bindings" in norm(n.targets[0] if isinstance(n, ast.Assign) else n.target)]
+    drains += [n for n in ast.walk(getter) if isinstance(n, ast.Call) and isinstance(n.func, ast.Attribute) and n.func.attr == "extend" and "_bindings" in norm(n.func.value)]
+    if not drains:
+        raise AnalysisError("Result.bindings: draining of _genbindings not found")
+    for d in drains:
+        ok = isinstance(d, ast.AugAssign) or isinstance(d, ast.Call) or (isinstance(d, ast.Assign) and "self._bindings" in norm(d.value).replace("self._genbindings", ""))
+        rep.ob("C16.i-bindings-extend-not-replace", qm, "Result.bindings", d, ok,
+               "keeps the rows collected so far" if ok else "the rows already yielded by a partial iteration are discarded: every serializer then omits them", node=d)
 
 
 EXEMPT: dict = {}
